@@ -154,6 +154,8 @@ pub enum Op {
     ExtRtcp(usize, bool, u32, Vec<u8>),
     /// … protects raw plaintext RTP bytes (lets the P bit disagree with the padding) under ROC `.1`
     ExtRaw(usize, u32, Vec<u8>),
+    /// `.3` streams (SSRC `.2`, `.2`+1, …) send one packet each from session `.0` to session `.1`
+    Fill(usize, usize, u32, u32),
     /// preset `(roc, last_seq, rtcp_index)` of an existing tx (`true`) / rx context of a session
     SetState(usize, bool, u32, u32, Option<u16>, u32),
 }
@@ -170,6 +172,7 @@ impl Op {
             Op::ExtRtp(s, roc, p) => format!("xr,{s},{roc},{}", p.text()),
             Op::ExtRtcp(s, e, idx, b) => format!("xc,{s},{},{idx},{}", *e as u8, hex(b)),
             Op::ExtRaw(s, roc, b) => format!("xp,{s},{roc},{}", hex(b)),
+            Op::Fill(s, r, first, count) => format!("fl,{s},{r},{first},{count}"),
             Op::SetState(s, tx, ssrc, roc, last, idx) => format!("st,{s},{},{ssrc},{roc},{},{idx}", if *tx { "t" } else { "r" },
                 last.map(|x| x.to_string()).unwrap_or("-".into())),
         }
@@ -186,6 +189,7 @@ impl Op {
             "uc" => Op::UnprotectRtcp(n(1), Src::parse(&f[2..])),
             "sn" => Op::Snap(n(1)),
             "xr" => Op::ExtRtp(n(1), f[2].parse().unwrap(), PktSpec::parse(&f[3..])),
+            "fl" => Op::Fill(n(1), n(2), f[3].parse().unwrap(), f[4].parse().unwrap()),
             "xp" => Op::ExtRaw(n(1), f[2].parse().unwrap(), unhex(f[3])),
             "xc" => Op::ExtRtcp(n(1), f[2] == "1", f[3].parse().unwrap(), unhex(f[4])),
             "st" => Op::SetState(n(1), f[2] == "t", f[3].parse().unwrap(), f[4].parse().unwrap(),
@@ -206,6 +210,7 @@ pub enum Res {
     Rtcp(Vec<u8>),                  // unprotect RTCP ok
     Err(&'static str),              // e:… / pe:…
     Snap(Vec<(u32, u32, Option<u16>, u32)>, Vec<(u32, u32, Option<u16>, u32)>),
+    Fill(u32),
 }
 impl Res {
     pub fn is_ok(&self) -> bool { matches!(self, Res::Bytes(_) | Res::Rtp(_) | Res::Rtcp(_)) }
@@ -216,6 +221,7 @@ impl Res {
             Res::Rtp(p) => format!("ok:{}", show_bytes(&p.marshal().unwrap_or_default())),
             Res::Rtcp(b) => format!("ok:{}", show_bytes(b)),
             Res::Err(e) => (*e).into(),
+            Res::Fill(n) => format!("ok{n}"),
             Res::Snap(rx, tx) => {
                 let t = |v: &Vec<(u32, u32, Option<u16>, u32)>| v.iter().map(|(s, r, l, i)|
                     format!("{s}:{r}:{}:{i}", l.map(|x| x.to_string()).unwrap_or("-".into()))).collect::<Vec<_>>().join(";");
@@ -249,13 +255,14 @@ pub struct World {
     /// whether the slot holds a protected RTCP (true) or RTP packet
     pub slot_rtcp: Vec<bool>,
     pub three_way: bool,
+    pub fill_result: String,
     /// disagreements with the reference implementation: (signature, detail)
     pub interop: Vec<(String, String)>,
 }
 
 impl World {
     pub fn new(three_way: bool) -> Self {
-        World { sess: vec![], prof: vec![], keys: vec![], shadow: vec![], slots: vec![], slot_pkt: vec![], slot_plain: vec![], slot_rtcp: vec![], three_way, interop: vec![] }
+        World { sess: vec![], prof: vec![], keys: vec![], shadow: vec![], slots: vec![], slot_pkt: vec![], slot_plain: vec![], slot_rtcp: vec![], fill_result: String::new(), three_way, interop: vec![] }
     }
     pub fn input(&self, src: &Src) -> Vec<u8> {
         match src { Src::Lit(b) => b.clone(), Src::Slot(k) => self.slots[*k].clone(), Src::Mutated(k, m) => m.apply(&self.slots[*k]) }
@@ -365,6 +372,21 @@ impl World {
                 self.slot_plain.push(plain);
                 self.slot_rtcp.push(false);
                 res
+            }
+            Op::Fill(i, j, first, count) => {
+                let mut acc = 0u32;
+                for k in 0..*count {
+                    let pkt = PktSpec::simple(1, first + k, vec![k as u8]);
+                    let mut pkt = pkt; pkt.ts = 0;
+                    let p = pkt.packet();
+                    let mut out = vec![0u8; self.sess[*i].protected_rtp_len(&p)];
+                    if self.sess[*i].protect_rtp(&p, &mut out).is_err() { continue; }
+                    if let Ok(sp) = SrtpPacket::parse(BytesMut::from(&out[..])) {
+                        if self.sess[*j].unprotect_rtp(sp).is_ok() { acc += 1; }
+                    }
+                }
+                self.fill_result = format!("ok{acc}");
+                Res::Fill(acc)
             }
             Op::ExtRaw(i, roc, plain) => {
                 let (mk, ms) = (&self.keys[*i].0, &self.keys[*i].1);
